@@ -45,6 +45,7 @@ type rxRunner struct {
 	gotErr   bool
 	complete int
 	stuck    bool
+	lates    int
 }
 
 func pkgsDesc(ps []wPkg) []map[string]interface{} {
@@ -259,6 +260,9 @@ func (r *rxRunner) runReader(id int, resp []byte, cuts []int, chunks []int, mode
 		pkg, err := r.ch.NextPackage(ctx, true)
 		cancel()
 		if err != nil {
+			if recvErrClass(err) == "ctx" {
+				r.lates++
+			}
 			r.tr.Emit(Ev{"ev": "RecvErr", "class": recvErrClass(err), "text": err.Error()})
 			break
 		}
@@ -315,7 +319,7 @@ func (r *rxRunner) consumeUntil(script []string, nilAt int) {
 				return false, nil
 			}
 		}
-		ctx, cancel := context.WithTimeout(context.Background(), 3*time.Second)
+		ctx, cancel := context.WithTimeout(context.Background(), 2*time.Second)
 		pkg, err := r.ch.NextPackageUntil(ctx, true, cb)
 		cancel()
 		calls++
@@ -331,6 +335,7 @@ func (r *rxRunner) consumeUntil(script []string, nilAt int) {
 			class = "cb"
 		case errors.Is(err, context.DeadlineExceeded):
 			class = "ctx"
+			r.lates++
 		case errors.Is(err, io.EOF):
 			class = "eof"
 		}
@@ -454,6 +459,7 @@ func (r *rxRunner) runFail(id int, ps []wPkg, cuts []int, off int, kind string, 
 			c := recvErrClass(err)
 			if c == "ctx" {
 				c = "late" // no error within the read timeout (+ slack): the consumer would block
+				r.lates++
 			}
 			r.tr.Emit(Ev{"ev": "RecvErr", "class": c, "text": err.Error(), "ms": int(time.Since(start).Milliseconds())})
 			gotErr = c == "err"
@@ -719,6 +725,9 @@ func rxMain(args []string) error {
 	}
 
 	for i := 0; i < *nfrag; i++ {
+		if r.lates >= 6 {
+			break // enough calls ran into the watchdog: the trace so far decides
+		}
 		ps := randResponse(rng, 40, 0)
 		resp := respBytes(ps)
 		tr.Reset(map[string]interface{}{"driver": "frag", "seed": *seed, "i": i})
@@ -804,6 +813,9 @@ func rxMain(args []string) error {
 	}
 
 	for i := 0; i < *nreads; i++ {
+		if r.lates >= 6 {
+			break // enough calls ran into the watchdog: the trace so far decides
+		}
 		ps := randResponse(rng, 20, 0)
 		resp := respBytes(ps)
 		n := len(resp)
@@ -856,6 +868,9 @@ func rxMain(args []string) error {
 	}
 
 	for i := 0; i < *nrounds; i++ {
+		if r.lates >= 6 {
+			break // enough calls ran into the watchdog: the trace so far decides
+		}
 		tr.Reset(map[string]interface{}{"driver": "rounds", "seed": *seed, "i": i})
 		nr := 2 + rng.Intn(3)
 		var resps [][]wPkg
@@ -893,6 +908,9 @@ func rxMain(args []string) error {
 
 	outs := []string{"cont", "cont", "cont", "cont", "stop", "eof", "err"}
 	for i := 0; i < *nuntil; i++ {
+		if r.lates >= 6 {
+			break // enough calls ran into the watchdog: the trace so far decides
+		}
 		tr.Reset(map[string]interface{}{"driver": "until", "seed": *seed, "i": i})
 		nr := 2 + rng.Intn(3)
 		var resps [][]wPkg
@@ -926,6 +944,9 @@ func rxMain(args []string) error {
 	}
 
 	for i := 0; i < *nfail; i++ {
+		if r.lates >= 6 {
+			break // enough calls ran into the watchdog: the trace so far decides
+		}
 		ps := randResponse(rng, 12, 0)
 		resp := respBytes(ps)
 		n := len(resp)
@@ -957,6 +978,9 @@ func rxMain(args []string) error {
 			}
 			if err := r.runFail(1, ps, cs, off, kind, *failTimeout, chunks); err != nil {
 				return err
+			}
+			if r.lates >= 3 { // enough evidence that errors arrive late or never: do not wait for every offset
+				break
 			}
 		}
 	}
